@@ -51,8 +51,7 @@ def gen_case(rng):
         elif r < 0.6:
             es.append(('R', gen_rule(rng, what, inq, 2)))
         elif r < 0.7:
-            es.append(('R', pick(rng, [('raise', pick(rng, ['ValueError', 'KeyError', 'RuntimeError', 'Exception',
-                                                           'ZeroDivisionError'])), ('gt', 'zz'), ('allin', [1]),
+            es.append(('R', pick(rng, [('raise', pick(rng, proto.RAISE_NAMES)), ('gt', 'zz'), ('allin', [1]),
                                        ('neither',), ('const', False)])))
         elif r < 0.85:
             es.append(gen_attr_elem(rng, what if isinstance(what, dict) else {'name': 'a'}, inq, hit=False))
